@@ -18,9 +18,14 @@ func main() {
 	}
 	src["main"] = string(b)
 	backends := "tv"
+	var callLimit uint
 	for _, a := range os.Args[2:] {
 		if strings.HasPrefix(a, "-b=") {
 			backends = a[3:]
+			continue
+		}
+		if strings.HasPrefix(a, "-limit=") {
+			fmt.Sscan(a[7:], &callLimit)
 			continue
 		}
 		name, path, _ := strings.Cut(a, "=")
@@ -42,7 +47,7 @@ func main() {
 		return
 	}
 	if strings.Contains(backends, "t") {
-		tr := drive.RunTree(ao.Modules, src, "main", drive.TreeOpts{})
+		tr := drive.RunTree(ao.Modules, src, "main", drive.TreeOpts{CallLimit: callLimit})
 		fmt.Printf("--- tree: outcome=%s steps=%d\n%s\n", tr.Outcome, tr.Steps, tr.Log.Render())
 	}
 	if strings.Contains(backends, "v") {
